@@ -49,6 +49,7 @@
 -/
 import FwdVerif.Model.C12
 import FwdVerif.Model.C12Dial
+import FwdVerif.Model.C12Cert
 import FwdVerif.Driver.Req
 
 namespace FwdVerif
@@ -306,6 +307,18 @@ def handle : List String → String
       | .panic => "panic"
       | .ret b => ofBool b
     | _, _, _ => "bad-op"
+  | ["certgen", v, names] =>
+    -- the certificate generator of the intercepting listener over the names of a sequence of handshakes
+    -- (`certRunV` from the empty state): one result per name
+    let v? : Option CertVariant := match v with
+      | "code" => some .code
+      | "keep-lock-on-error" => some .keepLockOnError
+      | _ => none
+    match v?, (splitList names).mapM bytesOfHex with
+    | some v, some ns =>
+      joinList ((certRunV v {} ns).2.map fun r => match r with
+        | .cached => "cached" | .issued => "issued" | .refused => "refused" | .blocked => "blocked")
+    | _, _ => "bad-op"
   | ["utf8", h] =>
     match bytesOfHex h with
     | some l => ofBool (validUTF8 l)
